@@ -113,7 +113,7 @@ CHECKS['C11'] = dict(
     engine='E2-bfs', category='model_checking', design_ref='DESIGN.md 5/C11',
     technique='breadth-first search over operation histories on 13 live port kinds with the sleep seam as an environment choice point (message arrives / device hangs up / nothing, with a horizon), against a life-cycle reference automaton',
     text='Every history up to depth 5 (7 thorough) of device events, send, poll, non-blocking and blocking receive, iteration, iter_pending, close / with-exit / __del__ and injected device write failures is executed on device doubles (direct and parser style, autoreset, self-closing), EchoPort, the IOPort wrapper and MultiPort. Inside blocking calls each call of ports.sleep is answered from an environment script. The reference automaton tracks per-source FIFO of delivered/taken-in/returned messages, the closed flag, the release counter (exactly one _close) and the 32 reset messages; a blocking call that sleeps while a message is deliverable, a non-blocking call that sleeps, an iteration that raises, a double release are violations.',
-    note='Devices are doubles at the documented extension seam; real backends out of reach. Known finding: IOPort wrapper unaware of a self-closed input.')
+    note='Devices are doubles at the documented extension seam; real backends out of reach.')
 
 CHECKS['C18'] = dict(
     engine='E3-dev', category='fault_enumeration', design_ref='DESIGN.md 5/C18',
@@ -125,4 +125,4 @@ CHECKS['C10'] = dict(
     engine='E4-sched', category='model_checking', design_ref='DESIGN.md 5/C10',
     technique='stateless model checking of thread schedules: every interleaving of small multi-threaded programs on the real ports within a preemption bound (iterative context bounding), at statement granularity',
     text='Eight (nine thorough) programs of 3-4 real threads - senders and receivers on EchoPort (receive, poll, iter_pending), on a lock-protected device double that moves one byte per statement, on the IOPort wrapper, on MultiPort (receive and send side) and on ParserQueue - are executed under every schedule with at most 1 preemption (2 thorough; +1 for the parser queue) and at most 2 (3) non-default choices at free switch points. Scheduling points are all statements of mido/ports.py, the parser queue and the doubles; locks, the queue and sleep are cooperative so that waiting is visible. Per schedule: no call raised, exactly-once delivery, per-sender order, received copy unaffected by the sender mutating its object, no deadlock or livelock. The default schedule is replayed twice to prove determinism.',
-    note='Parser/tokenizer internals atomic; interleavings within one source line not explored; more preemptions than the bound not covered; the sampled larger-programs clause of the property is not claimed. Known finding: IOPort wrapper double pop.')
+    note='Parser/tokenizer internals atomic; interleavings within one source line not explored; more preemptions than the bound not covered; the sampled larger-programs clause of the property is not claimed.')
